@@ -88,6 +88,8 @@ type Obj struct {
 	Typ   types.Type // type of V, or element type when Arr
 	Tag   string
 	RO    bool // belongs to pristine package state: stores are reported by write monitors
+	Origin   *Obj   // the pristine object this one was cloned from (stable identity across paths)
+	SharedID string // set by vShare: the object is shared between the threads of a concurrency check
 }
 
 type Ptr struct {
@@ -120,6 +122,8 @@ type Map struct {
 	Entries []*MapEntry
 	idx     map[string]int // concrete key -> entry index
 	Frozen  bool
+	Origin   *Map
+	SharedID string
 }
 
 type MapRef struct {
